@@ -153,6 +153,51 @@ IinLaw(S, n, ph, sel, vin, iout, iin, tol) ==
        ELSE IF DIsZero(iout) THEN DEq(iin, PA(S, n, "iq")) ELSE IoPlusIg
   ELSE FALSE
 
+(* Loss law (C02): the documented loss expression of every kind, evaluated on the quantities of the row    *)
+(* itself (reported Vin, Vout, Iin, Iout) - exact class.  eq(x, y, scale) is the comparison to use.        *)
+LossLaw(S, n, ph, sel, vin, vout, iin, iout, loss, Eq(_, _, _)) ==
+  LET k   == Kind(S, n)
+      av  == DAbs(vin)
+      ao  == DAbs(vout)
+      io2 == iout \otimes iout
+      Sleep == Eq(loss, PA(S, n, "iis") \otimes av, PA(S, n, "iis") \otimes av)
+      \* ground current times input voltage plus the series drop times the output current
+      IgPlusDrop(drop) ==
+         \E f \in ParamVals(Par(S, n)["ig"], iout, vin) :
+            Eq(loss \otimes f[2], (f[1] \otimes av) \oplus ((drop \otimes iout) \otimes f[2]),
+               (f[1] \otimes av) \oplus ((DAbs(drop) \otimes iout) \otimes f[2]))
+  IN
+  IF k = "SOURCE" THEN
+       IF ~Active(S, n, ph) \/ DIsZero(PC(S, n, "vo")) THEN DIsZero(loss)
+       ELSE Eq(loss, PA(S, n, "rs") \otimes io2, PA(S, n, "rs") \otimes io2)
+  ELSE IF k = "LOAD" THEN TRUE                                  \* C02.LoadExclusive
+  ELSE IF DIsZero(vin) THEN DIsZero(loss)
+  ELSE IF Cls(S, n) = "RLoss" THEN Eq(loss, PA(S, n, "rs") \otimes io2, PA(S, n, "rs") \otimes io2)
+  ELSE IF Cls(S, n) = "VLoss" THEN
+       \E f \in ParamVals(Par(S, n)["vdrop"], iout, vin) : Eq(loss \otimes f[2], f[1] \otimes iout, f[1] \otimes iout)
+  ELSE IF k = "CONVERTER" THEN
+       IF ~Active(S, n, ph) THEN Sleep
+       ELSE IF DIsZero(iout) THEN Eq(loss, PA(S, n, "iq") \otimes av, PA(S, n, "iq") \otimes av)
+       ELSE \E f \in ParamVals(Par(S, n)["eff"], iout, vin) :
+               Eq(loss \otimes f[2], (av \otimes iin) \otimes (f[2] \ominus f[1]), (av \otimes iin) \otimes f[2])
+  ELSE IF k = "LINREG" THEN
+       IF ~Active(S, n, ph) THEN Sleep
+       ELSE IgPlusDrop(av \ominus DMin(PA(S, n, "vo"), DMax(av \ominus PA(S, n, "vdrop"), DZero)))
+  ELSE IF k = "PSWITCH" THEN
+       IF ~Active(S, n, ph) THEN Sleep ELSE IgPlusDrop(av \ominus ao)
+  ELSE IF k = "PMUX" THEN
+       IF sel = 0 THEN DIsZero(loss)
+       ELSE IF ~Active(S, n, ph) THEN Sleep ELSE IgPlusDrop(av \ominus ao)
+  ELSE IF k = "RECTIFIER" THEN
+       IF IsDiode(S, n) THEN
+            \E f \in ParamVals(Par(S, n)["vdrop"], iout, vin) :
+               Eq(loss \otimes f[2], (Two \otimes f[1]) \otimes iout, (Two \otimes f[1]) \otimes iout)
+       ELSE IF DIsZero(iout) THEN Eq(loss, PA(S, n, "iq") \otimes av, PA(S, n, "iq") \otimes av)
+       ELSE \E f \in ParamVals(Par(S, n)["ig"], iout, vin) :
+               Eq(loss \otimes f[2], (f[1] \otimes av) \oplus (((Two \otimes PA(S, n, "rs")) \otimes io2) \otimes f[2]),
+                  (f[1] \otimes av) \oplus (((Two \otimes PA(S, n, "rs")) \otimes io2) \otimes f[2]))
+  ELSE FALSE
+
 \* a passive series element must neither invert nor amplify its input (C03, C11)
 Passive(S, n) == Kind(S, n) \in {"SLOSS", "PSWITCH", "PMUX", "RECTIFIER"}
 PassiveOK(S, n, vin, vout, tol) ==
